@@ -51,10 +51,19 @@ func SpecStackName(k string) string { return k }
 //@ predicate approvedData(cfg *Config, p *telemetry.ProgramReport): (forall k string :: in(k, p.Counters) ==> cfg.HasCounter(p.Program, k)) && (forall k string :: in(k, p.Stacks) ==> cfg.HasStack(p.Program, SpecStackName(k)))
 //@ predicate approvedReport(cfg *Config, r *telemetry.Report): forall j int :: 0 <= j && j < len(r.Programs) ==> approvedBuild(cfg, r.Programs[j]) && approvedData(cfg, r.Programs[j])
 
+// set: the result holds exactly the strings of the slice.
 //@ contract set
+//@   ensures result != nil && fresh(result)
+//@   ensures forall g string :: result[g] <==> (exists i int :: 0 <= i && i < len(slice) && slice[i] == g)
+//@   loop 1: invariant s != nil && fresh(s)
+//@   loop 1: invariant forall g string :: s[g] <==> (exists i int :: 0 <= i && i <= rangeindex && slice[i] == g)
 //@   modifies nothing
 
+// Expand is a function of its argument: specExpands(counter, e) names "e is one
+// of the strings Expand(counter) returns" (true of any deterministic function;
+// the meaning of the bucket syntax itself is not decided here).
 //@ contract Expand
+//@   assumes forall e string :: specExpands(counter, e) <==> (exists k int :: 0 <= k && k < len(result) && result[k] == e)
 //@   modifies nothing
 
 //@ contract NewConfig
@@ -62,13 +71,38 @@ func SpecStackName(k string) string { return k }
 //@   requires forall i int :: 0 <= i && i < len(cfg.Programs) ==> cfg.Programs[i] != nil
 //@   ensures result != nil && fresh(result)
 //@   ensures result.UploadConfig == cfg
-//@   assumes forall p string :: result.program[p] <==> listsProgram(cfg, p)
-//@   assumes forall g string :: result.goversion[g] <==> listsGoVersion(cfg, g)
-//@   assumes forall g string :: result.goos[g] <==> listsGOOS(cfg, g)
-//@   assumes forall g string :: result.goarch[g] <==> listsGOARCH(cfg, g)
-//@   assumes forall p string, v string :: result.pgversion[pgkey{p, v}] <==> listsVersion(cfg, p, v)
-//@   assumes forall p string, c string :: result.pgcounter[pgkey{p, c}] <==> listsCounter(cfg, p, c)
-//@   assumes forall p string, s string :: result.pgstack[pgkey{p, s}] <==> listsStack(cfg, p, s)
+//@   loop 1: invariant ucfg.UploadConfig == cfg && ucfg.program != nil && ucfg.pgversion != nil && ucfg.pgcounter != nil && ucfg.pgcounterprefix != nil && ucfg.pgstack != nil && ucfg.rate != nil
+//@   loop 2: invariant ucfg.pgversion != nil && p != nil
+//@   loop 3: invariant ucfg.pgcounter != nil && ucfg.pgcounterprefix != nil && ucfg.rate != nil && p != nil
+//@   loop 4: invariant ucfg.pgcounter != nil && ucfg.rate != nil && p != nil
+//@   loop 5: invariant ucfg.pgstack != nil && ucfg.rate != nil && p != nil
+// The four tables are built independently of each other; each group of
+// invariants is proved in its own pass over the function (proof views).
+//@   view simple
+//@   ensures forall p string :: result.program[p] <==> listsProgram(cfg, p)
+//@   ensures forall g string :: result.goversion[g] <==> listsGoVersion(cfg, g)
+//@   ensures forall g string :: result.goos[g] <==> listsGOOS(cfg, g)
+//@   ensures forall g string :: result.goarch[g] <==> listsGOARCH(cfg, g)
+//@   loop 1: invariant forall g string :: ucfg.goversion[g] <==> listsGoVersion(cfg, g)
+//@   loop 1: invariant forall g string :: ucfg.goos[g] <==> listsGOOS(cfg, g)
+//@   loop 1: invariant forall g string :: ucfg.goarch[g] <==> listsGOARCH(cfg, g)
+//@   loop 1: invariant forall q string :: ucfg.program[q] <==> (exists i int :: 0 <= i && i <= rangeindex && cfg.Programs[i].Name == q)
+//@   view versions
+//@   ensures forall p string, v string :: result.pgversion[pgkey{p, v}] <==> listsVersion(cfg, p, v)
+//@   loop 1: invariant forall q string, v string :: ucfg.pgversion[pgkey{q, v}] <==> (exists i int, j int :: 0 <= i && i <= rangeindex && 0 <= j && j < len(cfg.Programs[i].Versions) && cfg.Programs[i].Name == q && cfg.Programs[i].Versions[j] == v)
+//@   loop 2: invariant forall q string, v string :: ucfg.pgversion[pgkey{q, v}] <==> loopentry(ucfg.pgversion[pgkey{q, v}]) || (q == p.Name && (exists j int :: 0 <= j && j <= rangeindex && p.Versions[j] == v))
+//@   view stacks
+//@   ensures forall p string, s string :: result.pgstack[pgkey{p, s}] <==> listsStack(cfg, p, s)
+//@   loop 1: invariant forall q string, s string :: ucfg.pgstack[pgkey{q, s}] <==> (exists i int, j int :: 0 <= i && i <= rangeindex && 0 <= j && j < len(cfg.Programs[i].Stacks) && cfg.Programs[i].Name == q && cfg.Programs[i].Stacks[j].Name == s)
+//@   loop 5: invariant forall q string, s string :: ucfg.pgstack[pgkey{q, s}] <==> loopentry(ucfg.pgstack[pgkey{q, s}]) || (q == p.Name && (exists j int :: 0 <= j && j <= rangeindex && p.Stacks[j].Name == s))
+//@   view counters
+//@   ensures forall p string, c string :: result.pgcounter[pgkey{p, c}] <==> listsCounter(cfg, p, c)
+//@   loop 1: invariant forall q string, c string :: ucfg.pgcounter[pgkey{q, c}] <==> (exists i int, j int :: 0 <= i && i <= rangeindex && 0 <= j && j < len(cfg.Programs[i].Counters) && cfg.Programs[i].Name == q && specExpands(cfg.Programs[i].Counters[j].Name, c))
+//@   loop 3: invariant forall q string, c string :: ucfg.pgcounter[pgkey{q, c}] <==> loopentry(ucfg.pgcounter[pgkey{q, c}]) || (q == p.Name && (exists j int :: 0 <= j && j <= rangeindex && specExpands(p.Counters[j].Name, c)))
+//@   loop 4: invariant forall q string, e string :: ucfg.pgcounter[pgkey{q, e}] <==> loopentry(ucfg.pgcounter[pgkey{q, e}]) || (q == p.Name && (exists k int :: 0 <= k && k <= rangeindex && rangeexpr[k] == e))
+//@   view all
+// Still assumed: the rate table (last writer wins) holds the rate of one of the
+// entries that list the name.
 //@   assumes forall p string, n string :: result.pgcounter[pgkey{p, n}] || result.pgstack[pgkey{p, n}] ==> rateListed(cfg, p, n, result.rate[pgkey{p, n}])
 //@   modifies nothing
 
